@@ -1,17 +1,23 @@
 (* M-SCHEMA instantiated with the tables go2coq reads from pkg/document (Gen/Schema.v). *)
 From Coq Require Import String List Bool Arith.
 From WZ Require Import Model.Schema Gen.Schema Corr.SchemaCorr Proofs.SchemaProofs.
+From WZ Require Model.Walk Gen.Walkers.
 Import ListNotations.
 Open Scope string_scope.
 
-(* what the reader is known not to read back: body-level structured document tags (the table of
-   contents) and formula paragraphs - known_findings.json q_sdt_dropped_on_open, q_math_dropped_on_open *)
+(* what the reader is known not to read back: formula paragraphs - known_findings.json q_math_dropped_on_open *)
 Definition expected_uncovered : list (string * string * string) :=
-  [("MathParagraph", "*", "p"); ("OfficeMath", "*", "oMath"); ("OfficeMathPara", "*", "oMathPara");
-   ("SDT", "*", "sdt"); ("SDTProperties", "*", "sdtPr"); ("SDTID", "*", "id"); ("SDTColor", "*", "color");
-   ("DocPartObj", "*", "docPartObj"); ("DocPartGallery", "*", "docPartGallery");
-   ("DocPartUnique", "*", "docPartUnique"); ("SDTPlaceholder", "*", "placeholder"); ("DocPart", "*", "docPart");
-   ("SDTEndPr", "*", "sdtEndPr"); ("SDTContent", "*", "sdtContent")].
+  [("MathParagraph", "*", "p"); ("OfficeMath", "*", "oMath"); ("OfficeMathPara", "*", "oMathPara")].
+
+(* the two hand-written tables of Corr/SchemaCorr.v against the reader's walker table (Gen/Walkers.v): the reader of
+   the content of a structured document tag has one case of its own, "r", and hands every other element to the
+   body-level dispatch - which is what [g_elty] assumes for a list owner other than the body *)
+Lemma sdt_content_dispatch :
+  match Walk.find_walker Walkers.walkers "parseSDTContent" with
+  | Some w => (map (fun c => fst (fst c)) (Walk.w_cases w), Walk.h_kind (Walk.w_def w)) = (["r"], Walk.HSub "parseBodySubElement")
+  | None => False
+  end.
+Proof. vm_compute. reflexivity. Qed.
 
 Lemma inst_types_ok : g_types_ok w_schema = true.
 Proof. vm_compute. reflexivity. Qed.
@@ -31,26 +37,30 @@ Proof.
   apply andb_true_iff in H. destruct H as [_ H]. rewrite forallb_forall in H. apply H. exact Hsp.
 Qed.
 Definition covered_tys : list string := all_cov_in ("Body" :: I_reachable).
-Definition ok_root_in (l : list string) (t : string) : bool :=
-  memb t l && match I_elty (I_xmlname_of t) with Some u => String.eqb u t | None => false end.
-Lemma ok_root_in_readable l : forall t, ok_root_in l t = true -> I_elty (I_xmlname_of t) = Some t.
+Definition ok_root_in (l : list string) (owner t : string) : bool :=
+  memb t l && match I_elty owner (I_xmlname_of t) with Some u => String.eqb u t | None => false end.
+Lemma ok_root_in_readable l : forall owner t, ok_root_in l owner t = true -> I_elty owner (I_xmlname_of t) = Some t.
 Proof.
-  intros t H. unfold ok_root_in in H. apply andb_true_iff in H. destruct H as [_ H].
-  destruct (I_elty (I_xmlname_of t)) as [u|]; [|discriminate]. apply String.eqb_eq in H. subst u. reflexivity.
+  intros owner t H. unfold ok_root_in in H. apply andb_true_iff in H. destruct H as [_ H].
+  destruct (I_elty owner (I_xmlname_of t)) as [u|]; [|discriminate]. apply String.eqb_eq in H. subst u. reflexivity.
 Qed.
-Definition ok_root : string -> bool := ok_root_in covered_tys.
+Definition ok_root : string -> string -> bool := ok_root_in covered_tys.
 
 Lemma inst_reachable_split :
   forallb (fun ty => memb ty covered_tys || memb ty (map (fun r => fst (fst r)) expected_uncovered)) I_reachable = true.
 Proof. vm_compute. reflexivity. Qed.
 
-Lemma inst_roots : filter ok_root w_roots = ["BookmarkEnd"; "BookmarkStart"; "Paragraph"; "SectionProperties"; "Table"].
-Proof. vm_compute. reflexivity. Qed.
+(* what may stand in the body and come back: every element type of the body except the formula paragraph; the content
+   of a structured document tag may also hold text runs *)
+Lemma inst_roots :
+  filter (ok_root "Body") ("Run" :: w_roots) = ["BookmarkEnd"; "BookmarkStart"; "Paragraph"; "SDT"; "SectionProperties"; "Table"]
+  /\ filter (ok_root "SDTContent") ("Run" :: w_roots) = ["Run"; "BookmarkEnd"; "BookmarkStart"; "Paragraph"; "SDT"; "SectionProperties"; "Table"].
+Proof. vm_compute. split; reflexivity. Qed.
 
 Lemma covered_tys_covered : forall ty sp, In ty covered_tys -> In sp (I_fields_of ty) -> I_cov ty sp = true.
 Proof. exact (all_cov_in_covered ("Body" :: I_reachable)). Qed.
 
-Lemma ok_root_readable : forall t, ok_root t = true -> I_elty (I_xmlname_of t) = Some t.
+Lemma ok_root_readable : forall owner t, ok_root owner t = true -> I_elty owner (I_xmlname_of t) = Some t.
 Proof. exact (ok_root_in_readable covered_tys). Qed.
 
 Definition I_uses_only := uses_only I_fields_of covered_tys ok_root.
@@ -101,12 +111,31 @@ Definition ex_doc : dt := expand
 Lemma ex_doc_premises : I_conforms ex_doc = true /\ I_uses_only ex_doc = true /\ I_cycles "body" 3 ex_doc = ex_doc.
 Proof. vm_compute. repeat split; reflexivity. Qed.
 
-(* the known findings as refutations of the unrestricted statement: a body that holds a structured document tag
-   conforms to the schema and does not come back *)
-Definition ex_sdt : dt := expand (SN "Body" [(0, SL [SN "Paragraph" []; SN "SDT" []])]).
+(* a body with a structured document tag (the shape of a generated table of contents: properties, end properties,
+   content with a bookmark, a paragraph, a nested tag holding a text run, and the bookmark's end) meets the premises *)
+Definition ex_sdt : dt := expand
+  (SN "Body" [(0, SL [
+     SN "Paragraph" [];
+     SN "SDT" [(0, SL [SN "SDTProperties" [(0, SL [SN "RunProperties" [(8, SL [SN "FontSize" [(0, SS "21")]])]]);
+                                           (1, SL [SN "SDTID" [(0, SS "147476628")]]);
+                                           (2, SL [SN "SDTColor" [(0, SS "DBDBDB")]]);
+                                           (3, SL [SN "DocPartObj" [(0, SL [SN "DocPartGallery" [(0, SS "Table of Contents")]]);
+                                                                    (1, SL [SN "DocPartUnique" []])]])]]);
+                (1, SL [SN "SDTEndPr" []]);
+                (2, SL [SN "SDTContent" [(0, SL [
+                     SN "BookmarkStart" [(0, SS "0"); (1, SS "_Toc")];
+                     SN "Paragraph" [(1, SL [SN "Run" [(1, SL [SN "Text" [(1, SS "Contents")]])]])];
+                     SN "SDT" [(0, SL [SN "SDTProperties" [(4, SL [SN "SDTPlaceholder" [(0, SL [SN "DocPart" [(0, SS "{b5fdec38}")]])]])]]);
+                               (2, SL [SN "SDTContent" [(0, SL [SN "Run" [(1, SL [SN "Text" [(1, SS "Chapter 1")]])]])]])];
+                     SN "BookmarkEnd" [(0, SS "0")]])]])]])]).
 
-Lemma sdt_dropped : I_conforms ex_sdt = true /\ I_read (d_ty ex_sdt) (I_write "body" ex_sdt) <> ex_sdt.
-Proof. split; [vm_compute; reflexivity|]. vm_compute. discriminate. Qed.
+Lemma ex_sdt_premises : I_conforms ex_sdt = true /\ I_uses_only ex_sdt = true /\ I_cycles "body" 2 ex_sdt = ex_sdt.
+Proof. vm_compute. repeat split; reflexivity. Qed.
+
+(* a text run directly in the body is not read back: the dispatch depends on the owner of the list *)
+Definition ex_body_run : dt := expand (SN "Body" [(0, SL [SN "Run" [(1, SL [SN "Text" [(1, SS "x")]])]])]).
+Lemma body_run_not_covered : I_uses_only ex_body_run = false.
+Proof. vm_compute. reflexivity. Qed.
 
 (* a formula paragraph is read back as an ordinary paragraph, without the formula *)
 Definition ex_math : dt :=
